@@ -17,13 +17,12 @@ ASSUMPTIONS = [
     'flow ids are non-negative integers, fewer than 10000 flows (the ACK class of flow f is f + 10000)',
     'downstream devices are opaque: their put() does not raise and does not call back into the dispatching device '
     '(FIBDemux catches KeyError/IndexError/ValueError raised *inside* a downstream put as if its own lookup had failed)',
-    'the table / default clauses of FIBDemux are stated for a non-empty output list: `assert self.outs` turns outs=None or [] '
-    'into an uncaught AssertionError for every flow without an end device (modelled as the code does; reported, not demanded)',
     'a forwarding-table entry naming a port outside the output list is sent to the default output (IndexError is handled); '
     'negative ports index from the end as Python lists do (outside the property: modelled, no oracle)',
     'Hub element ids are compared with ==; endpoints sharing an element id are all treated as the sender',
     '"header fields" of a packet = its attributes time, size, packet_id, realtime, src, dst, flow_id, payload, color, ack, '
-    'current_time (rebinding an attribute of a copy); the dict-valued attributes perhop_time/priorities are shared by copy.copy()',
+    'current_time (rebinding an attribute) and the tables perhop_time / priorities (in-place writes); a copy is taken after the '
+    'original was handed to the first output, so it inherits the stamps made until then',
     'networkx keeps adjacency in insertion order and all_shortest_paths returns shortest paths (library); the harness checks '
     'each sampled path length against its own BFS',
     'end-to-end simulations use buffers large enough that no port drops a packet',
@@ -274,8 +273,8 @@ def demux_expect(c, flow, outs, default):
         return None
     if flow in ends:
         return [ends[flow]]
-    if not outs:
-        return None
+    if not outs:                                   # no output devices: every flow without an end device is an unknown flow
+        return [default] if default is not None else []
     fib = dict((f, p) for f, p in c['fib'])
     if flow in fib:
         if 0 <= fib[flow] < len(outs):
@@ -286,7 +285,69 @@ def demux_expect(c, flow, outs, default):
 
 def mk_packet(pid, flow, src):
     from onl.packet import Packet
-    return Packet(0.0, 100, pid, src=f'ep{src}', dst='dst0', flow_id=flow, payload=('pl', pid))
+    p = Packet(0.0, 100, pid, src=f'ep{src}', dst='dst0', flow_id=flow, payload=('pl', pid))
+    p.perhop_time['pre'] = 0.5          # a stamp and a priority entry made before the packet reaches the device under test
+    p.priorities['pre'] = 3
+    return p
+
+
+TABLES = ['perhop_time', 'priorities']
+
+
+def heap_lines(objs):
+    """`C j c`: the j-th delivered object carries the tables' earlier entries; `I i j f t q`: is rebinding a field of / an in-place
+    write into perhop_time / priorities of the i-th delivered object visible through the j-th (0 = no)"""
+    out = []
+    for j, o in enumerate(objs):
+        out.append(f'C {j} {int(o.perhop_time.get("pre") == 0.5 and o.priorities.get("pre") == 3)}')
+    for i, oi in enumerate(objs):
+        for j, oj in enumerate(objs):
+            if i == j:
+                continue
+            old, keep = oj.size, oi.size
+            oi.size = ('mut',)
+            f = int(oj.size != old)
+            oi.size = keep
+            vis = []
+            for tab in TABLES:
+                getattr(oi, tab)['zz'] = 1
+                vis.append(int('zz' in getattr(oj, tab)))
+                del getattr(oi, tab)['zz']
+            out.append(f'I {i} {j} {f} {vis[0]} {vis[1]}')
+    return out
+
+
+def port_stamp_check(c, k, outs, fails):
+    """real Ports behind every set output of a fresh splitter: a port stamping the object it is given must not stamp the others"""
+    from onl.netdev import Splitter, NSplitter, Port
+    from onl.sim import Environment
+    Rec, _ = _classes()
+    env = Environment()
+    log = []
+    if k == 'splitter':
+        sp = Splitter()
+    else:
+        sp = NSplitter(len(outs))
+    for j, d in enumerate(outs):
+        if d is None:
+            continue
+        pt = Port(env, 0, None, False, f'pt{j}')
+        pt.out = Rec(j, log)
+        if k == 'splitter':
+            setattr(sp, 'out1' if j == 0 else 'out2', pt)
+        else:
+            sp.outs[j] = pt
+    pk = mk_packet(99, 0, 0)
+    sp.put(pk)
+    drain(env)
+    for j, obj in log:
+        stamps = set(x for x in obj.perhop_time if str(x).startswith('pt'))
+        allowed = {f'pt{j}'} | ({'pt0'} if outs[0] is not None else set())
+        if f'pt{j}' not in stamps or not stamps <= allowed:
+            fails.add(f'{k} with a Port behind every output: the object that left output {j} carries the per-hop stamps {sorted(stamps)} '
+                      f'(allowed: {sorted(allowed)}) - a port stamping one object stamped another', 'splitter-port-stamp', c,
+                      [f'{jj}: {sorted(map(str, o.perhop_time))}' for jj, o in log])
+            break
 
 
 def run_dispatch(c, fails, hist):
@@ -480,6 +541,8 @@ def run_dispatch(c, fails, hist):
             exp = [d for d in outs if d is not None]
             got = [dv for dv, _ in entries]
             bad = None
+            if not exc:
+                lines.extend(heap_lines([o for _, o in entries]))
             if exc or got != exp:
                 bad = f'outputs reached {got}{" raising " + exc if exc else ""}, set outputs are {exp}'
             else:
@@ -497,6 +560,8 @@ def run_dispatch(c, fails, hist):
                     for o in objs:
                         if any(getattr(o, fld) != getattr(p, fld) for fld in HDR_FIELDS):
                             bad = 'a copy differs from the original in a header field'
+                        if any(getattr(o, tab) != getattr(p, tab) for tab in TABLES):
+                            bad = 'a copy differs from the original in its per-hop / priority table'
                 if not bad:
                     # independent header mutation: change every header field of one object, the others keep theirs
                     for j, o in enumerate(objs):
@@ -510,7 +575,23 @@ def run_dispatch(c, fails, hist):
                             setattr(o, fld, v)
             if bad:
                 fails.add(f'{k}: {bad}', 'splitter-rule', c, lines[-8:])
+                return
+            # in-place writes into the per-hop / priority table of one object, the other objects keep theirs
+            objs = [o for _, o in entries]
+            for j, o in enumerate(objs):
+                before = [[dict(getattr(q, tab)) for tab in TABLES] for q in objs]
+                for tab in TABLES:
+                    getattr(o, tab)[('mut', j)] = j
+                for i2, q in enumerate(objs):
+                    if i2 != j and [dict(getattr(q, tab)) for tab in TABLES] != before[i2]:
+                        fails.add(f'{k}: writing into perhop_time / priorities of delivered object #{j} (device {got[j]}) changed the table '
+                                  f'of delivered object #{i2} (device {got[i2]}): the copies share a dict', 'splitter-rule:tables', c, lines[-8:])
+                        return
+                for tab in TABLES:
+                    del getattr(o, tab)[('mut', j)]
         put_all(sp, chk)
+        if any(d is not None for d in outs):
+            port_stamp_check(c, k, outs, fails)
     return lines
 
 
